@@ -25,6 +25,7 @@ def run(rep):
                             HWCodes=dtchecks.models.code(dtchecks.models.sq(2, 12)))
     dtchecks.options_replay(rep, fnd, res2.records, "C12", rep.tier)
     dtchecks.masks_and_prefixes(rep, fnd, "C12", rep.tier)
+    dtchecks.reuse_checks(rep, fnd, "C12", rep.tier)
     # the mask machine: every (size, J, skip set, include set) jointly, enumerated by TLC
     hw = {(8, 8), (10, 12), (5, 7), (12, 20)} if rep.tier == "quick" else dtchecks.models.sq(2, 9) | {(12, 20), (10, 14), (24, 6)}
     res3 = dtchecks.run_dt2(rep, rep.tier, ["MaskSelectOK", "FwdPyramidOK"], {"fwdm"}, label="DTCWT2.masks",
